@@ -35,9 +35,10 @@ struct Obj {
 	bool reporter_installed = false; int reporter_skip = 100;
 	bool broken = false;                // a violation left model and object out of sync: stop judging it
 	int from_file_chain = 0;            // how many write/read hops lie behind this object
+	bool has_sos = false;               // read from a file with SOS sets (the round-trip laws of C08/C09 do not speak about those)
 };
 
-struct FileInfo { std::string kind = "prob", fmt; LP model; bool damaged = false, precond = false, foreign = false; int chain = 0; std::string cstat, rstat; };
+struct FileInfo { std::string kind = "prob", fmt; LP model; bool damaged = false, precond = false, foreign = false, sos = false; int chain = 0; std::string cstat, rstat; };
 
 struct Client { std::vector<std::shared_ptr<Obj>> objs; std::vector<StoredBasis> bases; };
 
